@@ -60,12 +60,23 @@ func genC19(r *rand.Rand, t *Trace, thorough bool) {
 			n = r.Intn(300)
 		}
 		res := make([]comet.TextResult, n)
+		if r.Intn(3) == 0 {
+			// a list with spare capacity (a prefix of a longer array, as an earlier cut or an append
+			// leaves it): what lies beyond its length is not part of the list
+			back := make([]comet.TextResult, n+1+r.Intn(6))
+			for i := range back {
+				back[i] = comet.TextResult{Id: uint32(900 + i), Score: 99}
+			}
+			res = back[:n]
+			t.Stat("limit.list_with_spare_capacity")
+		}
 		ids := make([]uint32, n)
 		for i := range res {
 			ids[i] = uint32(r.Intn(50))
 			res[i] = comet.TextResult{Id: ids[i], Score: rndScore32(r, false)}
 		}
 		ks := kBoundary(n)
+		ks = append(ks, n+2, n+3, cap(res), cap(res)+1)
 		k := ks[r.Intn(len(ks))]
 		if r.Intn(3) == 0 {
 			k = r.Intn(n+3) - 1
@@ -143,6 +154,13 @@ func genC19(r *rand.Rand, t *Trace, thorough bool) {
 			n = 2
 		}
 		res := make([]comet.TextResult, n)
+		if r.Intn(3) == 0 {
+			back := make([]comet.TextResult, n+1+r.Intn(4))
+			for i := range back {
+				back[i] = comet.TextResult{Id: uint32(900 + i), Score: -1000}
+			}
+			res = back[:n]
+		}
 		c := NewCase(1903).N(n)
 		sc := float32(10)
 		for i := range res {
